@@ -405,6 +405,24 @@ func (w *c19World) stopRace() {
 				w.fail("other-connection-disturbed", fmt.Sprintf("PING after a second Start got %s", o))
 			}
 		}
+	case "port-disabled-by-api", "port-disabled-by-client":
+		// the configuration says "no plain port" / "no TLS port" by the time Stop runs (the
+		// application prepared the next start, or a client sent CONFIG SET): the listening
+		// sockets this run opened and their accept loops must still be released
+		cl, o := sched.Dial(":6379")
+		if o.Status == "ok" {
+			racers = append(racers, cl.Raw())
+			cl.Do("PING")
+			if w.cs.StopRace == "port-disabled-by-client" {
+				cl.Do("CONFIG", "SET", "port", "0")
+				cl.Do("CONFIG", "SET", "tls-port", "0")
+			}
+		}
+		if w.cs.StopRace == "port-disabled-by-api" {
+			w.srv.SetPort(0)
+			w.srv.SetTLSPort(0)
+		}
+		vrt.WaitQuiet()
 	case "tls-stalled":
 		raw, err := vrt.Dial(":6380")
 		if err == nil {
@@ -502,7 +520,7 @@ func c19Run(c *fw.Ctx) {
 		return seqs
 	}
 	var races, len12, len3 []c19Case
-	for _, race := range []string{"connecting", "backlog", "in-flight", "tls-handshaking", "tls-stalled", "after-second-start", "write-parked", "tls-write-parked"} {
+	for _, race := range []string{"connecting", "backlog", "in-flight", "tls-handshaking", "tls-stalled", "after-second-start", "write-parked", "tls-write-parked", "port-disabled-by-api", "port-disabled-by-client"} {
 		for bg := 0; bg <= 1; bg++ {
 			races = append(races, c19Case{Kind: "sched", Background: bg, StopRace: race, Endings: []string{"stop:" + race}})
 		}
